@@ -15,7 +15,7 @@ def run(patch, ids):
         shutil.copy('/repo/Cargo.lock', repo)
         r = subprocess.run([os.path.join(VERIF, 'bin/mirfacts'), repo], capture_output=True, text=True, env=env)
         if r.returncode == 0: env['MIRFACTS_DIR'] = r.stdout.strip()
-        exe = os.path.join(VERIF, 'tools/rpverif/target/release/rpverif')
+        exe = os.environ.get('RPVERIF_EXE', os.path.join(VERIF, 'tools/rpverif/target/release/rpverif'))
         caught = {}
         for i in ids:
             r = subprocess.run([exe, 'check', i, 'quick'], env=env, capture_output=True, text=True)
